@@ -1034,7 +1034,7 @@ func nearAxisFamily(budget time.Duration) mc.Family {
 	nd := len(nearAxisDeltas)
 	return mc.Family{
 		Name: "near-axis-segments-and-tangents", Items: 4 * nd, Budget: budget,
-		Rule: fmt.Sprintf("item = (start tangent of the curve nearly horizontal|vertical, end tangent nearly horizontal|vertical, small component da of the start tangent); choice = small component db of the end tangent; da, db from %d values {0, +-1e-7, +-2e-6, +-0.001, +-0.004, +-0.0046, +-0.0048, +-0.0051, +-0.006, +-0.0075, +-0.009, +-0.0094, +-0.01, +-0.03}; path = moveto, nearly horizontal line (dy = da), the curve, nearly vertical line (dx = db), a second contour reached by a nearly vertical moveto (dx = da), nearly horizontal line (dy = db), closepath; encoder -> exact reconstruction and library decoder: every absolute coordinate within 1/214 of the requested one; non-trivial = da or db non-zero", nd),
+		Rule: fmt.Sprintf("item = (start tangent of the curve nearly horizontal|vertical, end tangent nearly horizontal|vertical, small component da of the start tangent); choices = small component db of the end tangent, fractional part of the second control point from {0, +-0.0046, +-0.004}; da, db from %d values {0, +-1e-7, +-2e-6, +-0.001, +-0.004, +-0.0046, +-0.0048, +-0.0051, +-0.006, +-0.0075, +-0.009, +-0.0094, +-0.01, +-0.03}; path = moveto, nearly horizontal line (dy = da), the curve, nearly vertical line (dx = db), a second contour reached by a nearly vertical moveto (dx = da), nearly horizontal line (dy = db), closepath; encoder -> exact reconstruction and library decoder: every absolute coordinate within 1/214 of the requested one; non-trivial = da or db non-zero", nd),
 		Body: func(c *mc.Ctx, item int) mc.Verdict {
 			da := nearAxisDeltas[item%nd]
 			st, en := (item/nd)%2, item/nd/2
@@ -1054,7 +1054,10 @@ func nearAxisFamily(budget time.Duration) mc.Family {
 			d1x, d1y := tangent(st, da, 10)
 			d3x, d3y := tangent(en, db, 12)
 			x1, y1 := p.advance(d1x, d1y)
-			x2, y2 := p.advance(R(20), R(25))
+			// the second control point may need rounding itself: the error of the end
+			// point is measured from where the decoder puts it, not from the request
+			f2 := []*big.Rat{R(0), big.NewRat(23, 5000), big.NewRat(-23, 5000), big.NewRat(1, 250), big.NewRat(-1, 250)}[c.Choose(5)]
+			x2, y2 := p.advance(new(big.Rat).Add(R(20), f2), new(big.Rat).Add(R(25), f2))
 			x3, y3 := p.advance(d3x, d3y)
 			p.g.CurveTo(x1, y1, x2, y2, x3, y3)
 			x, y = p.advance(db, R(-15))
@@ -1299,9 +1302,11 @@ func editFamily(budget time.Duration) mc.Family {
 func stemsFamily(budget time.Duration) mc.Family {
 	counts := []int{1, 12, 47, 48, 49, 60, 96, 97, 100, 128, 200, 500}
 	return mc.Family{
-		Name: "many-stems", Items: len(counts) * len(formats), Budget: budget,
-		Rule: fmt.Sprintf("a glyph with n in %v horizontal and n vertical stem pairs (distinct edges) x format: Write -> Read and -> independent decoder return all of them; non-trivial = all", counts),
+		Name: "many-stems", Items: 2 * len(counts) * len(formats), Budget: budget,
+		Rule: fmt.Sprintf("a glyph with n in %v horizontal and n vertical stem pairs x {distinct edges; every third pair written twice in a row and the first pair once more at the end} x format: Write -> Read and -> independent decoder return all of them, repetitions included; non-trivial = all", counts),
 		Body: func(c *mc.Ctx, item int) mc.Verdict {
+			repeat := item >= len(counts)*len(formats)
+			item %= len(counts) * len(formats)
 			n, fi := counts[item/len(formats)], item%len(formats)
 			g := &type1.Glyph{WidthX: 600}
 			g.MoveTo(0, 0)
@@ -1311,8 +1316,16 @@ func stemsFamily(budget time.Duration) mc.Family {
 			for i := 0; i < n; i++ {
 				g.HStem = append(g.HStem, funit.Int16(-12000+40*i), funit.Int16(-12000+40*i+15))
 				g.VStem = append(g.VStem, funit.Int16(9000-30*i), funit.Int16(9000-30*i+7))
+				if repeat && i%3 == 0 {
+					g.HStem = append(g.HStem, funit.Int16(-12000+40*i), funit.Int16(-12000+40*i+15))
+					g.VStem = append(g.VStem, funit.Int16(9000-30*i), funit.Int16(9000-30*i+7))
+				}
 			}
-			what := fmt.Sprintf("glyph with %d horizontal and %d vertical stems", n, n)
+			if repeat {
+				g.HStem = append(g.HStem, g.HStem[0], g.HStem[1])
+				g.VStem = append(g.VStem, g.VStem[0], g.VStem[1])
+			}
+			what := fmt.Sprintf("glyph with %d horizontal and %d vertical stems (repetitions: %v)", n, n, repeat)
 			if vd := publicRoundTrip(c, fontWith(g), fi, what); vd != nil {
 				return *vd
 			}
